@@ -5,7 +5,7 @@ Mathematical functions under rounding contexts.
 from fractions import Fraction
 from unittest import case
 
-from .number import REAL, Context, Float, Real, RealFloat
+from .number import REAL, RM, Context, Float, Real, RealFloat
 from .number.engine import ENGINES
 from .utils import UNINIT, digits_to_fraction, hexnum_to_fraction, is_dyadic
 
@@ -131,6 +131,19 @@ def _cvt_to_float(x: Real) -> Float:
         case _:
             raise TypeError(f'Expected \'Float\' or \'Fraction\', got \'{type(t)}\' for x={x}')
 
+def _is_negative(x: Float | Fraction) -> bool:
+    return x.s if isinstance(x, Float) else x < 0
+
+def _zero_sum(r: Float | Fraction, ctx: Context, negative: tuple[bool, ...]):
+    """The sign of an exact zero sum (IEEE 754-2019, 6.3): terms of unlike
+    signs that cancel give `+0` in every rounding direction except toward
+    negative, where they give `-0`.  The engines compute the sum exactly, where
+    it is `+0`; `negative` holds the signs of the terms."""
+    cancelled = (r.is_zero() and not r.s) if isinstance(r, Float) else r == 0
+    if cancelled and len(set(negative)) > 1 and getattr(ctx, 'rm', None) is RM.RTN:
+        return Float(s=True, c=0)
+    return r
+
 def _normalize(x: Float | Fraction, ctx: Context, args: tuple[Float | Fraction, ...] = ()):
     if ctx is REAL and isinstance(x, Fraction):
         return x
@@ -200,6 +213,7 @@ def add(x: Real, y: Real, ctx: Context = REAL):
     for engine in ENGINES:
         r = engine.add(xr, yr, ctx)
         if r is not None:
+            r = _zero_sum(r, ctx, (_is_negative(xr), _is_negative(yr)))
             return _normalize(r, ctx, (xr, yr))
 
     raise NotImplementedError(f'add() not implemented for ctx={ctx}')
@@ -456,6 +470,7 @@ def fma(x: Real, y: Real, z: Real, ctx: Context = REAL):
     for engine in ENGINES:
         r = engine.fma(xr, yr, zr, ctx)
         if r is not None:
+            r = _zero_sum(r, ctx, (_is_negative(xr) != _is_negative(yr), _is_negative(zr)))
             return _normalize(r, ctx, (xr, yr, zr))
 
     raise NotImplementedError(f'fma() not implemented for ctx={ctx}')
@@ -715,6 +730,7 @@ def sub(x: Real, y: Real, ctx: Context = REAL):
     for engine in ENGINES:
         r = engine.sub(xr, yr, ctx)
         if r is not None:
+            r = _zero_sum(r, ctx, (_is_negative(xr), not _is_negative(yr)))
             return _normalize(r, ctx, (xr, yr))
 
     raise NotImplementedError(f'sub() not implemented for ctx={ctx}')
